@@ -13,8 +13,11 @@ package main
 // resulting query is a sound proof of the obligation.
 
 import (
+	"fmt"
 	"math/big"
+	"os"
 	"sort"
+	"strings"
 )
 
 type instCtx struct {
@@ -65,6 +68,17 @@ func (ic *instCtx) assert(t *Term) {
 		// guard ==> forall v. body   ==   forall v. guard ==> body
 		q := t.args[1]
 		ic.qs = append(ic.qs, B.Forall(q.args[1:], B.Implies(t.args[0], q.args[0])))
+		return
+	}
+	if t.op == "=>" && !t.args[0].quant && t.args[1].op == "exists" {
+		// guard ==> exists v. P: skolemise under the guard
+		q := t.args[1]
+		m := map[*Term]*Term{}
+		for _, v := range q.args[1:] {
+			ic.nskol++
+			m[v] = B.Fresh("sk_"+v.name, v.sort)
+		}
+		ic.assert(B.Implies(t.args[0], B.Subst(q.args[0], m)))
 		return
 	}
 	if t.op == "=>" && !t.args[0].quant {
@@ -124,6 +138,9 @@ func (ic *instCtx) assertNot(t *Term) {
 			m[v] = B.Fresh("sk_"+v.name, v.sort)
 		}
 		ic.assertNot(B.Subst(t.args[0], m))
+	case "exists":
+		// not (exists v. P)  ==  forall v. not P: a universal hypothesis to instantiate
+		ic.qs = append(ic.qs, B.Forall(t.args[1:], B.Not(t.args[0])))
 	case "and":
 		if !t.quant {
 			ic.assert(B.Not(t))
@@ -184,6 +201,133 @@ func arrayRoots(a *Term, out map[*Term]bool) {
 	default:
 		out[a] = true
 	}
+}
+
+// appTerms collects the ground applications of uninterpreted functions in t (outside quantifiers), per function.
+func appTerms(t *Term, out map[string]map[*Term]bool, seen map[*Term]bool) {
+	if seen[t] {
+		return
+	}
+	seen[t] = true
+	if t.op == "forall" || t.op == "exists" {
+		return
+	}
+	if strings.HasPrefix(t.op, "app:") && !t.bound {
+		if out[t.op] == nil {
+			out[t.op] = map[*Term]bool{}
+		}
+		out[t.op][t] = true
+	}
+	for _, a := range t.args {
+		appTerms(a, out, seen)
+	}
+}
+
+// appPatterns: applications f(.., v + c, ..) in a quantified body in which the bound variable v occurs in
+// exactly one argument (plus a constant) and every other argument is ground.
+type appPat struct {
+	op   string
+	pos  int
+	off  *Term   // constant added to v in that argument
+	rest []*Term // the other arguments (nil at pos)
+}
+
+func appPatterns(B *Builder, body *Term, v *Term) []appPat {
+	var out []appPat
+	seen := map[*Term]bool{}
+	var walk func(t *Term)
+	walk = func(t *Term) {
+		if seen[t] || !t.bound {
+			return
+		}
+		seen[t] = true
+		if strings.HasPrefix(t.op, "app:") {
+			pos := -1
+			ok := true
+			var off *Term
+			for i, a := range t.args {
+				if !a.bound {
+					continue
+				}
+				if pos >= 0 {
+					ok = false
+					break
+				}
+				pos = i
+				switch {
+				case a == v:
+					off = B.Int(0)
+				case a.op == "+":
+					cnt := 0
+					var rest []*Term
+					for _, x := range a.args {
+						if x == v {
+							cnt++
+						} else {
+							rest = append(rest, x)
+						}
+					}
+					if cnt != 1 {
+						ok = false
+					}
+					for _, r := range rest {
+						if r.bound {
+							ok = false
+						}
+					}
+					if ok {
+						off = B.Add(rest...)
+					}
+				default:
+					ok = false
+				}
+			}
+			if ok && pos >= 0 && off != nil {
+				rest := make([]*Term, len(t.args))
+				for i, a := range t.args {
+					if i != pos {
+						rest[i] = a
+					}
+				}
+				out = append(out, appPat{t.op, pos, off, rest})
+			}
+		}
+		for _, a := range t.args {
+			walk(a)
+		}
+	}
+	walk(body)
+	return out
+}
+
+// definingHead: for a body of the shape  [guard ==>] lhs == rhs  where lhs is an application that mentions v, return lhs.
+func definingHead(body *Term, v *Term) *Term {
+	t := body
+	for t.op == "=>" {
+		t = t.args[1]
+	}
+	if t.op == "and" {
+		// strRun(s,0) == 0 && (guard ==> head == rhs): take the conjunct that has a guard
+		for _, a := range t.args {
+			if h := definingHead(a, v); h != nil {
+				return h
+			}
+		}
+		return nil
+	}
+	if t.op != "=" || len(t.args) != 2 {
+		return nil
+	}
+	for _, side := range t.args {
+		if strings.HasPrefix(side.op, "app:") && side.bound {
+			for _, a := range side.args {
+				if a != v && a.bound && a.op == "+" {
+					return side
+				}
+			}
+		}
+	}
+	return nil
 }
 
 // indexTerms collects, per array root, the index arguments of every select in t (outside quantifiers).
@@ -365,13 +509,41 @@ func instantiateQuery(B *Builder, asserts []*Term, negGoal *Term, wide bool) ([]
 			indexTerms(t, frontier, seen)
 		}
 	}
-	maxRounds := 8
+	maxRounds := 14
 	if wide {
-		maxRounds = 2
+		maxRounds = 13
 		ic.limit = 4000
 	}
+	appFrontier := map[string]map[*Term]bool{}
+	{
+		seen := map[*Term]bool{}
+		src := ic.goalQF
+		if wide {
+			src = ic.qf
+		}
+		for _, t := range src {
+			appTerms(t, appFrontier, seen)
+		}
+	}
+	allApps := map[*Term]bool{}
 	allIdx := map[*Term]map[*Term]bool{}
-	for round := 0; round < maxRounds && len(frontier) > 0; round++ {
+	for round := 0; round < maxRounds && (len(frontier) > 0 || len(appFrontier) > 0); round++ {
+		for _, m := range appFrontier {
+			for t := range m {
+				allApps[t] = true
+			}
+		}
+		nextApps := map[string]map[*Term]bool{}
+		if os.Getenv("GOVC_DBGINST") != "" {
+			nf, na := 0, 0
+			for _, m := range frontier {
+				nf += len(m)
+			}
+			for _, m := range appFrontier {
+				na += len(m)
+			}
+			fmt.Fprintf(os.Stderr, "inst round %d wide=%v: %d quantified hyps, %d index terms, %d app terms, %d instances so far\n", round, wide, len(ic.qs), nf, na, total)
+		}
 		for r, m := range frontier {
 			if allIdx[r] == nil {
 				allIdx[r] = map[*Term]bool{}
@@ -381,6 +553,55 @@ func instantiateQuery(B *Builder, asserts []*Term, negGoal *Term, wide bool) ([]
 			}
 		}
 		next := map[*Term]map[*Term]bool{}
+		// two bound variables, one of which is a direct argument of an uninterpreted function (a "base"
+		// parameter such as the p of run(p, k)): instantiate that one from the ground applications, which
+		// leaves single-variable hypotheses for the loop below
+		for _, q := range append([]*Term{}, ic.qs...) {
+			if len(q.args) != 3 {
+				continue
+			}
+			for vi := 1; vi <= 2; vi++ {
+				v := q.args[vi]
+				other := q.args[3-vi]
+				vals := map[*Term]bool{}
+				var walk func(t *Term)
+				seenW := map[*Term]bool{}
+				walk = func(t *Term) {
+					if seenW[t] || !t.bound {
+						return
+					}
+					seenW[t] = true
+					if strings.HasPrefix(t.op, "app:") {
+						for i, a := range t.args {
+							if a == v {
+								for g := range appFrontier[t.op] {
+									if !g.args[i].bound {
+										vals[g.args[i]] = true
+									}
+								}
+							}
+						}
+					}
+					for _, a := range t.args {
+						walk(a)
+					}
+				}
+				walk(q.args[0])
+				var vl []*Term
+				for x := range vals {
+					vl = append(vl, x)
+				}
+				sort.Slice(vl, func(i, j int) bool { return vl[i].id < vl[j].id })
+				for _, x := range vl {
+					key := [2]*Term{q, x}
+					if done[key] {
+						continue
+					}
+					done[key] = true
+					ic.qs = append(ic.qs, B.Forall([]*Term{other}, B.Subst(q.args[0], map[*Term]*Term{v: x})))
+				}
+			}
+		}
 		for _, q := range ic.qs {
 			if len(q.args) != 2 {
 				continue // single bound variable only
@@ -390,6 +611,9 @@ func instantiateQuery(B *Builder, asserts []*Term, negGoal *Term, wide bool) ([]
 			bases := selectBases(B, body, v)
 			cands := map[*Term]bool{}
 			for _, bp := range bases {
+				if wide && round >= 2 {
+					break // later rounds of the wide attempt only follow function patterns (linear growth)
+				}
 				for t := range frontier[bp.root] {
 					if bp.coef != 1 {
 						if q, ok := divExact(B, t, bp.base, bp.coef); ok {
@@ -398,6 +622,34 @@ func instantiateQuery(B *Builder, asserts []*Term, negGoal *Term, wide bool) ([]
 						continue
 					}
 					cands[B.Sub(t, bp.base)] = true
+				}
+			}
+			// uninterpreted-function patterns: f(.., v + c, ..) against ground f(.., t, ..). A defining
+			// equation  guard ==> f(.., v + c, ..) == rhs  is triggered by its head only (unfolding),
+			// and a hypothesis that has a function pattern is not also triggered by its array reads
+			// (the cross product of bases and reads explodes).
+			aps := appPatterns(B, body, v)
+			if len(aps) > 0 {
+				cands = map[*Term]bool{}
+			}
+			if hd := definingHead(body, v); hd != nil && !wide {
+				// goal-directed: unfold backwards from the terms the goal mentions; the wide attempt also
+				// unfolds forwards from the terms the hypotheses mention
+				if hp := appPatterns(B, hd, v); len(hp) > 0 {
+					aps = hp[:1]
+				}
+			}
+			for _, ap := range aps {
+				for g := range appFrontier[ap.op] {
+					match := true
+					for i, r := range ap.rest {
+						if i != ap.pos && r != g.args[i] {
+							match = false
+						}
+					}
+					if match {
+						cands[B.Sub(g.args[ap.pos], ap.off)] = true
+					}
 				}
 			}
 			var cl []*Term
@@ -421,6 +673,22 @@ func instantiateQuery(B *Builder, asserts []*Term, negGoal *Term, wide bool) ([]
 				total++
 				before := len(ic.qf)
 				ic.assert(inst)
+				seenA := map[*Term]bool{}
+				for _, t := range ic.qf[before:] {
+					fa := map[string]map[*Term]bool{}
+					appTerms(t, fa, seenA)
+					for op, m := range fa {
+						for g := range m {
+							if allApps[g] {
+								continue
+							}
+							if nextApps[op] == nil {
+								nextApps[op] = map[*Term]bool{}
+							}
+							nextApps[op][g] = true
+						}
+					}
+				}
 				seen := map[*Term]bool{}
 				for _, t := range ic.qf[before:] {
 					found := map[*Term]map[*Term]bool{}
@@ -440,6 +708,7 @@ func instantiateQuery(B *Builder, asserts []*Term, negGoal *Term, wide bool) ([]
 			}
 		}
 		frontier = next
+		appFrontier = nextApps
 	}
 	return ic.qf, true
 }
